@@ -6,7 +6,13 @@ import CkcVerif.Generated.Presets
 namespace CK
 
 /-- `five_from_permutation`: five bounds-checked slot reads -/
-def pick (ws : List Nat) (row : List Nat) : Option (List Nat) := row.mapM (fun i => ws[i]?)
+def pick (ws : List Nat) (row : List Nat) : Option (List Nat) :=
+  match row with
+  | [i0, i1, i2, i3, i4] =>
+    match ws[i0]?, ws[i1]?, ws[i2]?, ws[i3]?, ws[i4]? with
+    | some a, some b, some c, some d, some e => some [a, b, c, d, e]
+    | _, _, _, _, _ => none
+  | _ => none
 
 /-- one iteration of the best-of loop; the accumulator is `(best_hrv, best_hand)` -/
 def stepBest (T : Tables) (ws : List Nat) (acc : Option (Nat × List Nat)) (row : List Nat) :
